@@ -86,8 +86,16 @@ def _same_outcome(a, b):
     if k1 != k2:
         return False
     if k1 == 'ast':
-        return r1 == r2 and str(r1) == str(r2) and dict(getattr(r1, 'metadata', {})) == dict(getattr(r2, 'metadata', {}))
+        return r1 == r2 and str(r1) == str(r2) and _all_metadata(r1) == _all_metadata(r2)
     return type(r1) is type(r2) and _norm_msg(str(r1)) == _norm_msg(str(r2))
+
+
+def _all_metadata(r):
+    """Equality of ASTs ignores metadata: collect the annotations of the result (and of every property of a file)."""
+    out = [dict(getattr(r, 'metadata', None) or {})]
+    for p in getattr(r, 'properties', ()) or ():
+        out.append(dict(getattr(p, 'metadata', None) or {}))
+    return out
 
 
 def _norm_msg(msg):
@@ -238,7 +246,7 @@ def shard(ctx, shard_no, nshards, n, n_text, n_seq):
     with ctx.timed('stateless'):
         run_machine(ctx, shard_no, n_seq)
     with ctx.timed('order-differential'):
-        run_order_differential(ctx, shard_no, n_seq)
+        run_order_differential(ctx, shard_no, n_seq + n_seq // 2)
 
 
 NUM = re.compile(r'(?<![\w.@])(\d+)(\.\d*)?(?![\w.])')
@@ -260,6 +268,9 @@ def respell(text, x):
             return whole + frac + '0'
         return NUM.sub(f, text)
     if mode == 1:
+        if x % 8 == 5:
+            # whitespace changed only INSIDE string literals (another text with another meaning)
+            return re.sub(r'"[^"\n]*"', lambda m: m.group(0).replace(' ', '  ') if ' ' in m.group(0) else m.group(0)[:-1] + ' "', text)
         return text.replace(' ', '  ').replace('{', '{ ').replace('}', ' }')
     if mode == 2:
         return text.replace('True', 'False') if 'True' in text else text.replace('<', '<=', 1)
@@ -335,10 +346,11 @@ def fam_annotated(ch):
         items = []
         keys = ch.sample(['id', 'title', 'description'], min_size=0, max_size=3)
         for key in keys:
-            val = ch.pick(['p1', 'p2', 'x', 'P_2']) if key == 'id' else ch.pick(['"t"', '"d"', '""', '"a # b"', '"p1"'])
+            val = ch.pick(['p1', 'p2', 'x', 'P_2']) if key == 'id' else ch.pick(['"t"', '"d"', '""', '"a # b"', '"p1"', '"my title"', '"two  spaces"', '"a b c"', '"tab\there"'])
             items.append(f'# {key}: {val}')
         body = ch.pick(['globally: no /a', 'globally: no b {x > 1}', 'after a as A: some b {x > @A.x} within 100 ms',
-                        'globally: a causes (b or c {y = 2.0})', 'until q {z in [1 to 2.5]}: b requires a within 1 s'])  # fmt: skip
+                        'globally: a causes (b or c {y = 2.0})', 'until q {z in [1 to 2.5]}: b requires a within 1 s',
+                        'globally: no b {s = "disk full" or s = "x\ty"}'])  # fmt: skip
         sep = ch.pick(['\n', '\n', ' ', '\n\n'])
         props.append(sep.join(items + [body]))
     return ch.pick(['\n', '\n\n', ' ']).join(props)
@@ -347,20 +359,24 @@ def fam_annotated(ch):
 def derive_text(ch, calls):
     """The next text of a call sequence, often derived from an earlier one: the same again, a respelling, a prefix cut
     at an arbitrary character (a syntax error at an arbitrary parser state), or one junk token inserted anywhere."""
-    mode = ch.int(0, 11)
-    if calls and mode <= 4:
+    mode = ch.int(0, 13)
+    if calls and mode <= 6:
         kind, text = calls[ch.int(0, len(calls) - 1)]
         if mode == 0:
             return kind, text
         if mode == 1:
-            return kind, respell(text, ch.int(0, 63))
-        if mode in (2, 3) and len(text) > 2:
+            return kind, respell(text, 4 * ch.int(0, 15))  # equal numbers spelled differently
+        if mode == 2:
+            return kind, respell(text, 1)  # other whitespace between tokens
+        if mode == 3:
+            return kind, respell(text, 5)  # other whitespace INSIDE string literals
+        if mode in (4, 5) and len(text) > 2:
             return kind, text[: ch.int(1, len(text) - 1)]
         pos = ch.int(0, len(text))
         while 0 < pos < len(text) and not text[pos - 1].isspace():
             pos -= 1
         return kind, text[:pos] + ch.pick(JUNK) + ' ' + text[pos:]
-    if mode <= 8:
+    if mode <= 10:
         return ch.pick(['property', 'specification', 'specification']), fam_annotated(ch)
     c = gen_case(ch)
     return c['kind'], c['text']
@@ -374,11 +390,25 @@ def build_sequence(ints):
     for x in ints:
         ch = Chooser(random.Random(x).randbytes(1024))
         if kinds is None:
-            kinds = ch.sample(list(lib.ENTRY_POINTS) + ['specification', 'property'], min_size=1, max_size=2)
+            kinds = []
         kind, text = derive_text(ch, calls)
         if kind not in kinds:
-            kind = kinds[0]
+            if len(kinds) < 3:
+                kinds.append(kind)  # at most three entry points per sequence (parser objects are expensive to create)
+            else:
+                kind = kinds[ch.int(0, 2)]
         calls.append([kind, text])
+    # epilogue: close relatives of up to four earlier texts, one per kind of relation (a parser that remembers anything
+    # under a normalised key - numbers, whitespace, whitespace inside strings - answers one of them from memory)
+    if ints:
+        ch = Chooser(random.Random(ints[0] ^ 0x5EED).randbytes(64))
+        base = list(calls)
+        spaced = re.compile(r'"[^"\n]* [^"\n]*"')
+        for x, applies in ((0, lambda t: NUM.search(t)), (1, lambda t: ' ' in t), (5, lambda t: spaced.search(t))):
+            cands = [c for c in base if applies(c[1]) and respell(c[1], x) != c[1]]
+            for _ in range(min(3, len(cands))):
+                kind, text = cands.pop(ch.int(0, len(cands) - 1))
+                calls.append([kind, respell(text, x)])
     return calls
 
 
@@ -428,7 +458,7 @@ def run_order_differential(ctx, shard_no, n_runs):
         ctx.case(core.h64(repr(calls)), len(calls) >= 2, 'order-differential', sample=[[k, t[:60]] for k, t in calls[:4]] if len(calls) >= 3 else None)
         ctx.count('order-differential-calls', len(calls))
 
-    strat = st.lists(st.integers(0, 2**32 - 1), min_size=2, max_size=40)
+    strat = st.lists(st.integers(0, 2**32 - 1), min_size=6, max_size=40)
     core.run_hypothesis(ctx, 'order', strat, body, n_runs)
 
 
